@@ -307,6 +307,13 @@ const WP_SKELETONS: &[&str] = &[
     "tr(#,{pk(#),pk(#)})", "tr(#,multi_a(2,#,#))", "wsh(and_v(v:pk(#),or_d(pk(#),older(12960))))",
     "wsh(or_d(pk(#),and_v(v:pkh(#),older(5))))", "sh(multi(2,#,#,#))", "tr(#,{{pk(#),multi_a(2,#,#)},and_v(v:pk(#),after(100))})",
     "wsh(thresh(2,pk(#),s:pk(#),s:pk(#),sln:older(144)))", "wsh(andor(pk(#),sha256(1111111111111111111111111111111111111111111111111111111111111111),pk(#)))",
+    // hash fragments of every kind with NON-symmetric values (the four hash translators in both directions)
+    "wsh(and_v(v:pk(#),hash256(0102030405060708090a0b0c0d0e0f101112131415161718191a1b1c1d1e1f20)))",
+    "wsh(and_v(v:pk(#),ripemd160(0102030405060708090a0b0c0d0e0f1011121314)))",
+    "wsh(and_v(v:pk(#),hash160(a0a1a2a3a4a5a6a7a8a9aaabacadaeafb0b1b2b3)))",
+    "wsh(and_v(v:pk(#),sha256(fffefdfcfbfaf9f8f7f6f5f4f3f2f1f0efeeedecebeae9e8e7e6e5e4e3e2e1e0)))",
+    "tr(#,{and_v(v:pk(#),hash256(fffefdfcfbfaf9f8f7f6f5f4f3f2f1f0efeeedecebeae9e8e7e6e5e4e3e2e1e0)),and_v(v:pk(#),ripemd160(a0a1a2a3a4a5a6a7a8a9aaabacadaeafb0b1b2b3))})",
+    "sh(wsh(thresh(2,pk(#),s:pk(#),a:sha256(0102030405060708090a0b0c0d0e0f101112131415161718191a1b1c1d1e1f20),a:hash160(0102030405060708090a0b0c0d0e0f1011121314))))",
 ];
 
 fn fill(skel: &str, items: &[String]) -> String {
@@ -465,7 +472,8 @@ pub fn run_wallet_gen(out: &mut Out, thorough: bool, rng: &mut Rng, km: &KeyMate
     // --- generated descriptors
     let n = if thorough { 1500 } else { 150 };
     for i in 0..n {
-        let skel = WP_SKELETONS[rng.below(WP_SKELETONS.len())];
+        // every skeleton at least once in every tier, then random ones
+        let skel = if i < WP_SKELETONS.len() { WP_SKELETONS[i] } else { WP_SKELETONS[rng.below(WP_SKELETONS.len())] };
         let slots = n_slots(skel);
         // key per slot: distinct keys; with w1_ok also repeated ones (fresh disjoint pair)
         let mut order: Vec<usize> = (0..keys.len()).collect();
@@ -801,6 +809,16 @@ pub fn run_desc_model(out: &mut Out, thorough: bool, rng: &mut Rng, ms: &std::co
         for n in tap_leaves.iter().take(cap) { objs.push(DescW::Tr(2, Some(TapW::Leaf(n.clone())))); }
         for i in 2..(if thorough { 60 } else { 14 }) { objs.push(DescW::Tr(3, Some(tap_shape(i, rng, &tap_leaves)))); }
         for d in [1usize, 2, 30, 127, 128, 129] { objs.push(DescW::Tr(4, Some(tap_comb(d, rng, &tap_leaves)))); }
+        // depth-128 bookkeeping: two sibling pairs at depth 128 under a spine of 126, pure combs to 128 on either side
+        let lf = |i: usize| TapW::Leaf(tap_leaves[i % tap_leaves.len()].clone());
+        let pair = |i: usize| TapW::Node(Box::new(lf(i)), Box::new(lf(i + 1)));
+        let spine = |d: usize, right: bool, bottom: TapW| { let mut t = bottom; for i in 0..d { t = if right { TapW::Node(Box::new(lf(i)), Box::new(t)) } else { TapW::Node(Box::new(t), Box::new(lf(i))) }; } t };
+        for right in [true, false] {
+            objs.push(DescW::Tr(5, Some(spine(126, right, TapW::Node(Box::new(pair(0)), Box::new(pair(2)))))));
+            objs.push(DescW::Tr(6, Some(spine(128, right, lf(7)))));
+            objs.push(DescW::Tr(7, Some(spine(127, right, pair(4)))));
+            objs.push(DescW::Tr(8, Some(spine(129, right, lf(1)))));   // too deep: not constructible, text refused
+        }
     }
     // miniscript texts (id atoms) usable as tap leaves / inside wsh()
     let leaf_txt: Vec<String> = tap_leaves.iter().take(60).filter_map(|n| ms_ids::<XOnlyPublicKey, Tap>(n).map(|m| m.to_string())).collect();
@@ -839,4 +857,246 @@ pub fn run_desc_model(out: &mut Out, thorough: bool, rng: &mut Rng, ms: &std::co
         out.count(&format!("descmodel malformed {}", if ans == "ERR" { "ERR" } else if ans == "PANIC" { "PANIC" } else { "ok" }));
         out.line(&format!("C descparse {}", hex(&m)), &ans);
     }
+}
+
+/* ============================================================ input-class round */
+
+use miniscript::bitcoin::bip32::{ChildNumber, DerivationPath, Fingerprint, Xpriv, Xpub};
+use miniscript::descriptor::{DerivPaths, DescriptorMultiXKey, DescriptorXKey, SinglePriv, SinglePub, SinglePubKey, Wildcard};
+
+fn dpath(s: &str) -> DerivationPath { if s.is_empty() { DerivationPath::from(Vec::<ChildNumber>::new()) } else { DerivationPath::from_str(&format!("m/{}", s)).unwrap() } }
+
+type Origin = Option<(Fingerprint, DerivationPath)>;
+fn origins() -> Vec<(&'static str, Origin)> {
+    vec![("noorigin", None), ("fp", Some((Fingerprint::from([0xd3, 0x4d, 0xb3, 0x3f]), dpath("")))),
+         ("fp0", Some((Fingerprint::from([0, 0, 0, 0x0a]), dpath("44'/0'/7")))), ("fph", Some((Fingerprint::from([0xff; 4]), dpath("2147483647'/0/1'"))))]
+}
+const WILDS: [(&str, Wildcard); 3] = [("none", Wildcard::None), ("star", Wildcard::Unhardened), ("starh", Wildcard::Hardened)];
+const PATHS: [&str; 8] = ["", "0", "0/1/2", "0'", "1'/2/3'", "2147483647", "2147483647'", "5/6'/7"];
+/// multipath alternatives that differ at exactly one step (first / middle / last; 2 or 3 alternatives; hardened ones)
+const MPATHS: [&[&str]; 7] = [&["0", "1"], &["0/5", "1/5"], &["7/0/3", "7/1/3", "7/2/3"], &["0'", "1'"], &["4/0'", "4/1"], &["9/8/0", "9/8/2147483647"], &["2", "0", "1"]];
+
+/// `from_str(to_string(k))` for a key VALUE built through the public structs (not through the parser)
+fn rt_key_value<K: std::fmt::Debug + std::fmt::Display + PartialEq + FromStr>(out: &mut Out, kind: &str, label: &str, k: &K) {
+    let s = match catch_unwind(AssertUnwindSafe(|| k.to_string())) { Ok(s) => s, Err(_) => {
+        out.count(&format!("rt {} PANIC", kind));
+        out.line(&format!("J rt {}-{} - PANIC-in-Display", kind, label), "ok"); return; } };
+    let tok = guard(|| {
+        let k2 = match K::from_str(&s) { Ok(k2) => k2, Err(_) => return "fail:own-display-unparseable".into() };
+        if format!("{:?}", k2) != format!("{:?}", k) { return "fail:structure-differs".into(); }
+        if k2 != *k { return "fail:lib-eq".into(); }
+        if k2.to_string() != s { return "fail:not-fixed-point".into(); }
+        "pass".into()
+    });
+    out.count(&format!("rt {} {}", kind, tok));
+    out.line(&format!("J rt {}-{} {} {}", kind, label, hex(&s), tok), "ok");
+}
+
+pub fn run_key_values(out: &mut Out, km: &KeyMaterial) {
+    let secp = &km.secp;
+    let xprv = Xpriv::from_str(&km.xprvs[0]).unwrap();
+    let tprv = Xpriv::new_master(miniscript::bitcoin::NetworkKind::Test, &[9u8; 32]).unwrap();
+    let xpub = Xpub::from_priv(secp, &xprv);
+    let tpub = Xpub::from_priv(secp, &tprv);
+    // --- cell 1: public keys through the structs
+    for (ol, o) in origins() {
+        for (kl, key) in [("compressed", SinglePubKey::FullKey(ast::full_key(3))), ("uncompressed", SinglePubKey::FullKey(ast::full_key(102))), ("xonly", SinglePubKey::XOnly(ast::xonly_key(204)))] {
+            rt_key_value(out, "key-api", &format!("single-{}-{}", kl, ol), &DescriptorPublicKey::Single(SinglePub { origin: o.clone(), key }));
+        }
+        for (wl, w) in WILDS {
+            for (pi, p) in PATHS.iter().enumerate() {
+                let xk = if pi % 3 == 2 { tpub } else { xpub };
+                rt_key_value(out, "key-api", &format!("xpub-{}-{}-p{}", ol, wl, pi),
+                    &DescriptorPublicKey::XPub(DescriptorXKey { origin: o.clone(), xkey: xk, derivation_path: dpath(p), wildcard: w }));
+                rt_key_value(out, "seckey-api", &format!("xprv-{}-{}-p{}", ol, wl, pi),
+                    &DescriptorSecretKey::XPrv(DescriptorXKey { origin: o.clone(), xkey: if pi % 3 == 2 { tprv } else { xprv }, derivation_path: dpath(p), wildcard: w }));
+            }
+            for (mi, m) in MPATHS.iter().enumerate() {
+                let paths = DerivPaths::new(m.iter().map(|p| dpath(p)).collect()).unwrap();
+                rt_key_value(out, "key-api", &format!("multixpub-{}-{}-m{}", ol, wl, mi),
+                    &DescriptorPublicKey::MultiXPub(DescriptorMultiXKey { origin: o.clone(), xkey: xpub, derivation_paths: paths.clone(), wildcard: w }));
+                // cell 2: MultiXPrv has its own wildcard printer
+                rt_key_value(out, "seckey-api", &format!("multixprv-{}-{}-m{}", ol, wl, mi),
+                    &DescriptorSecretKey::MultiXPrv(DescriptorMultiXKey { origin: o.clone(), xkey: if mi % 2 == 0 { xprv } else { tprv }, derivation_paths: paths, wildcard: w }));
+            }
+        }
+        // cell 2: single secret keys: compressed / uncompressed (51-character WIF) / testnet
+        use miniscript::bitcoin::{NetworkKind, PrivateKey};
+        for (kl, pk) in [("wif", PrivateKey { compressed: true, network: NetworkKind::Main, inner: ast::secret(1) }),
+                         ("wif-uncompressed", PrivateKey { compressed: false, network: NetworkKind::Main, inner: ast::secret(2) }),
+                         ("wif-testnet", PrivateKey { compressed: true, network: NetworkKind::Test, inner: ast::secret(3) }),
+                         ("wif-testnet-uncompressed", PrivateKey { compressed: false, network: NetworkKind::Test, inner: ast::secret(4) })] {
+            rt_key_value(out, "seckey-api", &format!("{}-{}", kl, ol), &DescriptorSecretKey::Single(SinglePriv { origin: o.clone(), key: pk }));
+        }
+    }
+    // --- cell 3: values whose multipath alternatives are NOT "differ at exactly one step, pairwise distinct"
+    let x = &km.xpubs[0];
+    // (a) multipath steps with REPEATED alternatives (refused since 3f2894f8; before, they were accepted and printed
+    // as a different key) and pairwise distinct ones incl. hardened vs unhardened of the same index: every text is judged
+    for t in ["/<0;0;1>/*", "/<5;5>/*", "/<1;1;1>", "/3/<7;7;8>", "/<0';0';1'>/*h", "/<0;0>", "/<0;1;0>/*", "/<0';0h>/*", "/<2;1;2>/9", "/<0h;1;0'>",
+              "/<0;0h>/*", "/<0;0'>", "/<1;1h;2>/*", "/<0;1;2>/*", "/<2147483647;0>/*", "/4/<1';1>/5/*h"] {
+        for (parser, text) in [("pub", format!("{}{}", x, t)), ("pub", format!("[d34db33f/1']{}{}", km.tpub, t)), ("sec", format!("{}{}", km.xprvs[0], t))] {
+            let r = if parser == "pub" { catch_unwind(AssertUnwindSafe(|| DescriptorPublicKey::from_str(&text).map(|k| Some(k)).map_err(|_| ()))) }
+                    else { catch_unwind(AssertUnwindSafe(|| DescriptorSecretKey::from_str(&text).map(|_| None).map_err(|_| ()))) };
+            let label = format!("dup{}", t.replace('/', "_").replace('*', "w").replace('<', "").replace('>', "").replace(';', ".").replace('\'', "h"));
+            match r {
+                Ok(Ok(k)) => {
+                    out.count("keymulti accepted");
+                    out.line(&format!("J keymulti {} {} accepted", parser, hex(&text)), "ok");
+                    if let Some(k) = k { rt_key_value(out, "key-parsed", &label, &k); }
+                }
+                Ok(Err(())) => { out.count("keymulti rejected"); out.line(&format!("J keymulti {} {} rejected", parser, hex(&text)), "ok"); }
+                Err(_) => out.line(&format!("J nopanic key-fromstr {} PANIC", hex(&text)), "ok"),
+            }
+        }
+    }
+    // the same inside descriptors
+    for d in [format!("wpkh({}/<0;0;1>/*)", x), format!("wsh(multi(1,{}/<0;1>/*,{}/<3;3>/*))", x, km.xpubs[1]), format!("tr({}/<0;1;0>/*)", x)] {
+        let v = verdict(|| Descriptor::<DescriptorPublicKey>::from_str(&d));
+        out.count(&format!("keymulti in-descriptor {}", v));
+        // judged through the key text: the descriptor must be refused exactly because its key is
+        out.line(&format!("J nopanic desc-fromstr {} {}", hex(&d), v), "ok");
+        if v == "ok" { out.line(&format!("J rt desc {} fail:repeated-multipath-alternative-accepted", hex(&d)), "ok"); }
+    }
+    // (b) built through `DerivPaths::new`: one path only, two differing steps, different lengths, no step at all
+    for (label, paths) in [("one-path", vec!["0/1"]), ("two-steps-differ", vec!["0/1", "2/3"]), ("shorter-second", vec!["0/1", "0"]), ("longer-second", vec!["0", "0/1"]),
+                           ("differs-after-first-pair", vec!["0", "0", "1"]), ("no-steps", vec!["", ""])] {
+        let k = DescriptorPublicKey::MultiXPub(DescriptorMultiXKey { origin: None, xkey: xpub, derivation_paths: DerivPaths::new(paths.iter().map(|p| dpath(p)).collect()).unwrap(), wildcard: Wildcard::Unhardened });
+        rt_key_value(out, "key-api", &format!("multixpub-shape-{}", label), &k);
+    }
+    // --- cell 1: the two spellings of a hardened step / wildcard denote the same key
+    let o = "[d34db33f/44'/0'/7']"; let oh = "[d34db33f/44h/0h/7h]";
+    let pairs: Vec<(String, String)> = vec![
+        (format!("{}/0'/1", x), format!("{}/0h/1", x)), (format!("{}/*'", x), format!("{}/*h", x)),
+        (format!("{}{}/1'/*'", o, x), format!("{}{}/1h/*h", oh, x)), (format!("{}/<0';1'>/*", x), format!("{}/<0h;1h>/*", x)),
+        (format!("{}/<0';1h>/2'/*h", x), format!("{}/<0h;1'>/2h/*'", x)), (format!("{}{}", o, ast::full_key(2)), format!("{}{}", oh, ast::full_key(2))),
+        (format!("{}{}", o, ast::xonly_key(201)), format!("{}{}", oh, ast::xonly_key(201))),
+    ];
+    for (a, b) in &pairs {
+        let tok = guard(|| match (DescriptorPublicKey::from_str(a), DescriptorPublicKey::from_str(b)) {
+            (Ok(ka), Ok(kb)) => if format!("{:?}", ka) == format!("{:?}", kb) && ka == kb && ka.to_string() == kb.to_string() { "pass".into() } else { "fail:spellings-differ".into() },
+            (Err(_), _) => "fail:apostrophe-form-rejected".into(), (_, Err(_)) => "fail:h-form-rejected".into(),
+        });
+        out.count(&format!("alias key {}", tok));
+        out.line(&format!("J alias key {} {} {}", hex(a), hex(b), tok), "ok");
+    }
+    let p = &km.xprvs[0];
+    for (a, b) in [(format!("{}/0'/*'", p), format!("{}/0h/*h", p)), (format!("{}{}/<3';4'>/*", o, p), format!("{}{}/<3h;4h>/*", oh, p))] {
+        let tok = guard(|| match (DescriptorSecretKey::from_str(&a), DescriptorSecretKey::from_str(&b)) {
+            (Ok(ka), Ok(kb)) => if format!("{:?}", ka) == format!("{:?}", kb) && ka == kb { "pass".into() } else { "fail:spellings-differ".into() },
+            _ => "fail:rejected".to_string(),
+        });
+        out.line(&format!("J alias seckey {} {} {}", hex(&a), hex(&b), tok), "ok");
+    }
+}
+
+/* ---- cell 2 / 4: descriptors with secret keys (every position, every wrapper) and hash fragments */
+
+const H32A: &str = "0102030405060708090a0b0c0d0e0f101112131415161718191a1b1c1d1e1f20";
+const H32B: &str = "fffefdfcfbfaf9f8f7f6f5f4f3f2f1f0efeeedecebeae9e8e7e6e5e4e3e2e1e0";
+const H20A: &str = "0102030405060708090a0b0c0d0e0f1011121314";
+const H20B: &str = "a0a1a2a3a4a5a6a7a8a9aaabacadaeafb0b1b2b3";
+
+fn rt_desc_secret(out: &mut Out, km: &KeyMaterial, t: &str) {
+    let tok = guard(|| {
+        let (d, kmap) = match Descriptor::parse_descriptor(&km.secp, t) { Ok(x) => x, Err(e) => return format!("reject:{}", err_class(&e.to_string())) };
+        let s = d.to_string_with_secret(&kmap);
+        let (d2, kmap2) = match Descriptor::parse_descriptor(&km.secp, &s) { Ok(x) => x, Err(e) => return format!("fail:parse-err:{}", err_class(&e.to_string())) };
+        if super::shape_desc(&d2) != super::shape_desc(&d) { return "fail:structure-differs".into(); }
+        if d2 != d { return "fail:lib-eq".into(); }
+        if format!("{:?}", kmap2) != format!("{:?}", kmap) || kmap2 != kmap { return "fail:keymap-differs".into(); }
+        if d2.to_string_with_secret(&kmap2) != s { return "fail:not-fixed-point".into(); }
+        // the secret text must contain every secret it was given (nothing silently replaced by its public key)
+        if !s.starts_with(&t[..t.find('(').unwrap_or(0)]) { return "fail:wrapper-changed".into(); }
+        "pass".into()
+    });
+    out.count(&format!("rt desc-secret {}", if tok.starts_with("reject") { "rejected-input" } else { tok.as_str() }));
+    if !tok.starts_with("reject:") { out.line(&format!("J rt desc-secret {} {}", hex(t), tok), "ok"); }
+}
+
+pub fn run_secret_descriptors(out: &mut Out, km: &KeyMaterial) {
+    use miniscript::bitcoin::{NetworkKind, PrivateKey};
+    let (p, q) = (&km.xprvs[0], &km.xprvs[1]);
+    let t = Xpriv::new_master(NetworkKind::Test, &[9u8; 32]).unwrap().to_string();
+    let x = &km.xpubs[2];
+    let w5 = PrivateKey { compressed: false, network: NetworkKind::Main, inner: ast::secret(2) }.to_wif();
+    let wc = PrivateKey { compressed: true, network: NetworkKind::Test, inner: ast::secret(3) }.to_wif();
+    let wk = &km.wifs[0];
+    let texts = vec![
+        format!("tr({}/*,pk({}/*))", p, q), format!("tr({},{{pk({}/<0;1>/*),pk({}/<0;1>/*)}})", x, p, q), format!("tr({}/<0;1>/*h)", p),
+        format!("tr({},multi_a(1,{}/*,{}/0'/*'))", wk, p, t), format!("sh(multi(1,{},{}))", w5, x), format!("sh(multi(2,{},{}/1,{}))", wk, p, w5),
+        format!("pk({})", w5), format!("pkh({})", wc), format!("pkh([d34db33f/1h]{}/<0;1>/*')", t), format!("multi(1,{},{})", w5, wk),
+        format!("sh(wsh(sortedmulti(2,{}/<0;1>/*h,{}/<0;1>/*,{}/<2;3>/*)))", p, x, q), format!("wsh(pkh({}/<0;1;2>))", q),
+        format!("sh(wpkh([ffffffff/2147483647']{}))", wk), format!("wpkh({}/2147483647'/0/*)", t),
+        // cell 4: hash fragments next to secret keys (the KeyMap translators see a hash of every kind, none symmetric)
+        format!("wsh(and_v(v:pk({}/*),hash256({})))", p, H32A), format!("wsh(and_v(v:pk({}/<0;1>/*h),ripemd160({})))", p, H20A),
+        format!("wsh(and_v(v:pk({}),hash160({})))", wk, H20B), format!("sh(and_v(v:pk({}),sha256({})))", w5, H32B),
+        format!("tr({},and_v(v:pk({}/*),hash256({})))", x, p, H32B),
+        format!("wsh(thresh(2,pk({}/*),s:pk({}/*),a:sha256({}),a:hash256({}),a:ripemd160({}),a:hash160({})))", p, x, H32A, H32B, H20A, H20B),
+    ];
+    for t in &texts { rt_desc_secret(out, km, t); }
+}
+
+/* ---- cell 5: full keys in taproot, origin + uncompressed, Descriptor<DefiniteDescriptorKey> */
+
+pub fn run_definite(out: &mut Out, km: &KeyMaterial) -> Vec<String> {
+    let c2 = ast::full_key(1).to_string(); let c3 = ast::full_key(2).to_string();
+    let c2 = if c2.starts_with("02") { c2 } else { let a = (0..10).map(|i| ast::full_key(i).to_string()).find(|s| s.starts_with("02")); a.unwrap_or(c2) };
+    let c3 = if c3.starts_with("03") { c3 } else { let a = (0..10).map(|i| ast::full_key(i).to_string()).find(|s| s.starts_with("03")); a.unwrap_or(c3) };
+    let u = ast::full_key(101).to_string(); let xo = ast::xonly_key(205).to_string();
+    let (x, y) = (&km.xpubs[0], &km.xpubs[1]);
+    let mut valid = vec![];
+    let texts = vec![
+        format!("tr({})", c2), format!("tr({})", c3), format!("tr([d34db33f/86'/0']{})", c3),
+        format!("tr({},{{pk({}),pk([0a0b0c0d/1]{})}})", x, c3, c2), format!("tr({},{{pk({}),{{pk({}),multi_a(2,{},{},{}/*)}}}})", xo, c2, c3, c2, xo, y),
+        format!("tr({}/*,and_v(v:pk({}),pk({})))", x, c2, xo),
+        format!("pkh([d34db33f/0']{})", u), format!("sh(pk([00000000/44'/1']{}))", u), format!("pk([ffffffff]{})", u), format!("sh(multi(1,[d34db33f/0']{},{}))", u, c2),
+        format!("multi(2,{},[d34db33f/7]{},{})", c3, u, c2),
+    ];
+    for t in &texts { super::desc_from_text(out, km, "desc-keykinds", t, &mut valid); }
+    // Descriptor<DefiniteDescriptorKey>: derive, print, parse with the DEFINITE key parser
+    let o = "[d34db33f/48'/0'/2']";
+    let ranged = vec![
+        format!("wpkh({}{}/1/*)", o, x), format!("wsh(multi(2,{}/0/*,{}{}/7/*,{}))", x, o, y, c2), format!("sh(wsh(and_v(v:pk({}/*),older(5))))", x),
+        format!("tr({}{}/0/*,{{pk({}/1/*),pk({})}})", o, x, y, xo), format!("pkh({}{})", o, u), format!("tr({}/<0;1>/*,pk({}/<2;3>/*))", x, y),
+        format!("wsh(or_d(pk([00000000/2147483647']{}/2147483647/*),and_v(v:pkh({}),hash160({}))))", x, c3, H20A),
+    ];
+    for t in &ranged {
+        // every text below is valid and derivable by construction (no hardened step after an xpub): a refusal is judged
+        let d = match Descriptor::<DescriptorPublicKey>::from_str(t) { Ok(d) => d, Err(e) => {
+            out.line(&format!("J rt desc-definite {} reject:{}", hex(t), err_class(&e.to_string())), "ok"); continue; } };
+        let singles = if d.is_multipath() { match d.clone().into_single_descriptors() { Ok(v) => v, Err(_) => {
+            out.line(&format!("J rt desc-definite {} fail:into-single-descriptors", hex(t)), "ok"); continue; } } } else { vec![d] };
+        for sd in singles {
+            for idx in [0u32, 1, 2147483647] {
+                let dd = match catch_unwind(AssertUnwindSafe(|| sd.at_derivation_index(idx))) { Ok(Ok(dd)) => dd, _ => {
+                    out.count("rt desc-definite not-derivable");
+                    out.line(&format!("J rt desc-definite {} fail:not-derivable-at-{}", hex(&sd.to_string()), idx), "ok"); continue; } };
+                let s = dd.to_string();
+                let tok = guard(|| {
+                    let y = match Descriptor::<DefiniteDescriptorKey>::from_str(&s) { Ok(y) => y, Err(e) => return format!("fail:parse-err:{}", err_class(&e.to_string())) };
+                    if super::shape_desc(&y) != super::shape_desc(&dd) { return "fail:structure-differs".into(); }
+                    if y != dd { return "fail:lib-eq".into(); }
+                    if y.to_string() != s { return "fail:not-fixed-point".into(); }
+                    if y.script_pubkey() != dd.script_pubkey() { return "fail:script-differs".into(); }
+                    // the same text through the general key parser denotes the same script
+                    match Descriptor::<DescriptorPublicKey>::from_str(&s).ok().and_then(|g| g.at_derivation_index(0).ok()) {
+                        Some(g) => if g.script_pubkey() != dd.script_pubkey() { return "fail:general-parser-script-differs".into(); },
+                        None => return "fail:general-parser-rejects".into(),
+                    }
+                    "pass".into()
+                });
+                out.count(&format!("rt desc-definite {}", tok));
+                out.line(&format!("J rt desc-definite {} {}", hex(&s), tok), "ok");
+                if !sd.has_wildcard() { break; }
+            }
+        }
+    }
+    // a definite key with a hardened step after the xpub cannot exist; its text must be refused, not mangled
+    for t in [format!("wpkh({}/0'/1)", x), format!("wpkh({}/*)", x), format!("wpkh({}/<0;1>/2)", x)] {
+        let v = verdict(|| Descriptor::<DefiniteDescriptorKey>::from_str(&t));
+        out.count(&format!("definite-refusal {}", v));
+        out.line(&format!("J nopanic desc-definite-fromstr {} {}", hex(&t), v), "ok");
+    }
+    valid
 }
